@@ -718,7 +718,25 @@ func ready(c Case) bool {
 func Select(hasDefault bool, cases ...Case) Sel {
 	sc := s
 	if sc == nil {
-		panic("vsched: channel operation outside a scheduled execution")
+		// outside a scheduled execution only non-blocking selects make sense
+		for i, c := range cases {
+			if ready(c) {
+				switch {
+				case c.real.IsValid():
+					return Sel{Index: i}
+				case c.send:
+					c.ch.doSend(c.v)
+					return Sel{Index: i}
+				default:
+					v, ok := c.ch.doRecv()
+					return Sel{Index: i, V: v, OK: ok}
+				}
+			}
+		}
+		if hasDefault {
+			return Sel{Index: -1}
+		}
+		panic("vsched: blocking channel operation outside a scheduled execution")
 	}
 	t := sc.cur
 	// register as passive receiver on all recv cases
